@@ -43,7 +43,7 @@ func OneMain(args []string) int {
 		defer pprof.StopCPUProfile()
 	}
 	t0 := time.Now()
-	r := runJob(Job{Family: args[0], Params: p, Bound: bound, Prune: bound < 0})
+	r := runJob(Job{Family: args[0], Params: p, Bound: bound, Prune: bound < 0 || os.Getenv("VPRUNE") != ""})
 	fmt.Printf("execs=%d pruned=%d states=%d steps=%d points=%d maxpre=%d boundDone=%d exhaustive=%v outcomes=%d in %.2fs (%.0f exec/s)\n",
 		r.Stats.Executions, r.Stats.Pruned, r.Stats.States, r.Stats.Steps, r.Stats.ChoicePoints, r.Stats.MaxPreempt, r.Stats.BoundDone, r.Stats.Exhaustive,
 		len(r.Stats.Outcomes), time.Since(t0).Seconds(), float64(r.Stats.Executions)/time.Since(t0).Seconds())
